@@ -27,7 +27,7 @@ pub fn run(prop: &str, tier: &str, verif_dir: &str) -> Option<Report> {
         "C10" => sets::run(10, tier),
         "C01" => lookup::run_c01(tier),
         "C02" => lookup::run_c02(tier),
-        "C03" => partition::run(tier),
+        "C03" => partition::run(tier, verif_dir),
         "C04" => cells::run_c04(tier),
         "C11" => cells::run_c11(tier),
         "C12" => cells::run_c12(tier),
@@ -60,6 +60,7 @@ pub fn replay(prop: &str, case: &Value, verif_dir: &str) -> Option<Vec<Viol>> {
         "C16" => proj::replay_c16(case),
         "C17" => hilbert::replay(case),
         "C18" => frame::replay_c18(case),
+        "C19" => frame::replay_c19(case),
         _ => return None,
     })
 }
